@@ -253,7 +253,7 @@ def _oracle(case, ins: Instrument) -> list[Failure]:
     restarting = "Restart" in case["pcode"] or any(o[0] == "user" and o[1] == "Restart" for o in case["sched"]) \
         or any(o[0] == "inject" and "Restart" in o[1] for o in case["sched"])
     injected: list = []
-    st = {"prev_failed": set(), "prog": e.interpreter._program, "stop": None, "other_errors": 0}
+    st = {"prev_failed": set(), "prog": e.interpreter._program, "stop": None, "other_errors": 0, "failed_interps": []}
 
     def raw(snap, name):
         return snap["raw_tags"].get(name)
@@ -293,12 +293,16 @@ def _oracle(case, ins: Instrument) -> list[Failure]:
     def tick() -> dict | None:
         """one tick + everything that is judged in every tick; None when the tick raised"""
         ins.new_tick()
-        fresh = e.interpreter._last_error is None
+        # the first error of this interpreter (once it has failed it raises again on every tick it gets)
+        interp = e.interpreter
+        fresh = not any(i is interp for i in st["failed_interps"])
         se0 = ins.set_error_calls
         snap = run.tick()
         if snap["raised"]:
             fails.append(Failure("tick-raised:" + snap["raised"].split(":")[0], case, snap["raised"][:300]))
             return None
+        if ins.interp_raised and fresh:
+            st["failed_interps"].append(interp)
         failed = failed_now()
         new_failed = failed - st["prev_failed"]
         st["prev_failed"] = failed
